@@ -408,6 +408,12 @@ class ResourceAnalysis:
             finally: self.add = orig; dom.witness_only = True
             return
         if P.unknown_atoms:
+            orig, soft = self._soft(P.unknown_atoms[0]); ua = P.unknown_atoms
+            self.add = soft; P.unknown_atoms = []
+            try: self._lock_path(P, v, row, dom, this, site, used)
+            finally: self.add = orig; P.unknown_atoms = ua
+            return
+        if P.unknown_atoms:
             c = P.unknown_atoms[0]
             self.unknown('RES.2', f'row {row}', c.shortloc(), f'branch atom outside the table vocabulary: {c.text()[:80]}')
             return
@@ -557,6 +563,31 @@ class ResourceAnalysis:
         self.add('RES.8x', d.c <= 0, f'row {row}: the recorded bound does not exceed the counter after the increment', site,
                  '' if d.c <= 0 else f'recorded {val}, the counter after the increment is next+1: the request that takes the next ticket is admitted together with this batch (a writer with company)')
 
+    def _extra_only(self, c):
+        """the branch condition reads members of the Resource outside the monitor state only (a statistics record, an option flag):
+        no state field, no local, no parameter, no call"""
+        if c is None: return False
+        seen_extra = False
+        for x in c.walk():
+            if x.k == 'member':
+                b = x.n('base')
+                if b is not None and b.k == 'this':
+                    if x.name in STATE or x.name in ('m_mutex', 'm_cv'): return False
+                    seen_extra = True
+            elif x.k == 'ref' and x.dk in ('param', 'local'): return False
+            elif x.k == 'call' and not (x.calleeq or '').startswith('std::atomic'): return False
+        return seen_extra
+
+    def _soft(self, c):
+        """judge a path that was chosen by a test of a member outside the tables: whether it can be taken is not followed, so what is
+        wrong on it is not a refutation; what is right on every such path is right whichever is taken"""
+        orig = self.add
+        txt = (c.text() or '')[:50]
+        def soft(rule, ok, inst, site_, why='', *a, **k):
+            if ok is False: return orig(rule, None, inst, site_, f'on a path chosen by `{txt}`, a test outside the vocabulary of the lock tables (whether the path can be taken is not followed): {why}', *a, **k)
+            return orig(rule, ok, inst, site_, why, *a, **k)
+        return orig, soft
+
     # ---- wait predicate ------------------------------------------------------------------------------------------------
     def predicate(self):
         pred = getattr(self, 'pred', None)
@@ -611,7 +642,10 @@ class ResourceAnalysis:
                 n += 1
                 row = show(v, ['cnt1', 'QE', 'front'] + (['batch1'] if 'batch1' in dom.consulted else []))
                 for P in paths:
+                    self.add = self.__class__.add.__get__(self)
                     if P.unknown_atoms:
+                        orig_, soft_ = self._soft(P.unknown_atoms[0]); self.add = soft_
+                    elif False:
                         self.unknown('RES.4', f'row {row}', P.unknown_atoms[0].shortloc(), f'branch atom outside the vocabulary: {P.unknown_atoms[0].text()[:80]}'); continue
                     st = P.store
                     sel = [i for i, e in enumerate(P.events) if e[0] == 'enter' and e[2] == f'{CLS}::select']
@@ -881,7 +915,8 @@ class ResourceAnalysis:
         self.lock_rows()
         self.other_writers()
         self.predicate()
-        self.unlock_rows()
+        try: self.unlock_rows()
+        finally: self.add = self.__class__.add.__get__(self)
         self._res7_verdicts()
         self.forwarding()
 
